@@ -28,8 +28,9 @@ THEOREMS = ['Pycdlib.place_disjoint', 'Pycdlib.place_in_bounds', 'Pycdlib.place_
             'Pycdlib.Iso.step_inv', 'Pycdlib.Iso.invB_iff', 'Pycdlib.Iso.init0_inv', 'Pycdlib.dr_grow_tie', 'Pycdlib.dr_shrink_tie']
 PARTIAL = {
     'space_exact_partial': 'Iso.space_exact proves declared size = from-scratch layout over EVERY history of the bookkeeping machine '
-    '(directories of both hierarchies, path tables, contents with hard links, continuation blocks as a count, PVD copies). Outside the '
-    'machine and decided by the allocation oracle per history: the UDF partition and its descriptors, the El Torito catalog, isohybrid '
+    '(directories of both hierarchies, path tables, contents with hard links, continuation blocks as a count, PVD copies, UDF directories '
+    'with their File Entries and File Identifier areas, the File Entry sector shared by the UDF names of a content). Outside the '
+    'machine and decided by the allocation oracle per history: the fixed UDF descriptor area and the partition length field, the El Torito catalog, isohybrid '
     'padding, and WHICH continuation block an entry lands in (the allocator inside a block is Susp.addEntry_disjoint, C08)',
 }
 TRUSTED = ['the independent reader finds every object the image uses (what it does not decode cannot be checked for overlap)']
@@ -41,8 +42,8 @@ LEVEL_TEXT = ('Lean 4 theorems for all inputs: sequential placement is pairwise 
               'utils.py; the packing loop of dr.py and the path-table / space-size accounting of headervd.py are regenerated from the source on every '
               'run and proved equal to the model (dr_recalc_tie, add/remove_ptr_size_tie), and so are the growth rule of _add_child and the shrink rule of remove_child (dr_grow_tie, dr_shrink_tie), and the path-table reservation is proved exact after '
               'any history (run_exact). Iso.space_exact / dirs_covered / path_tables_exact / layout_sound: over every history of public edits (ISO9660 + Joliet + Rock Ridge records, '
-              'hard links, PVD copies) the declared size kept by deltas equals the from-scratch layout, which is pairwise disjoint and ends exactly there; tied per edit by predicting '
-              'every data_length, path table reservation and the volume size of the real object (isorun). UDF / El Torito / isohybrid parts of the layout are decided per history by the allocation oracle.')
+              'hard links, PVD copies, UDF directories / entries / links) the declared size kept by deltas equals the from-scratch layout, which is pairwise disjoint and ends exactly there; tied per edit by predicting '
+              'every data_length, path table reservation and the volume size of the real object (isorun). El Torito / isohybrid parts of the layout and the fixed UDF descriptor area are decided per history by the allocation oracle.')
 LEVEL_NOTE = 'Trusted: Lean kernel, reader completeness for allocation, generator coverage. See PARTIAL for the missing composition.'
 TECHNIQUE = 'Lean 4 invariant proof over the edit-state machine (space_exact) + translated kernels with tie lemmas + per-edit bookkeeping correspondence + independent-reader allocation oracle'
 
@@ -127,9 +128,9 @@ def post(ctx, c, rep):
 
 
 def run(ctx):
-    c01.run(ctx, focus='C04', post=post, n_quick=200, n_thorough=5000, force={'duppvd': True})
+    c01.run(ctx, focus='C04', post=post, n_quick=170, n_thorough=5000, force={'duppvd': True})
     # allocation must stay sound for edits made to a reopened image (parsed continuation areas, parsed extents)
-    c01.run(ctx, focus='C04', post=post, n_quick=120, n_thorough=3000, reopen_every=5)
+    c01.run(ctx, focus='C04', post=post, n_quick=100, n_thorough=3000, reopen_every=5)
 
 
 def replay(ctx, obj):
